@@ -43,6 +43,20 @@ def load_json(path, default):
         return default
 
 
+def bfile(unit):
+    return os.path.join(VERIF, 'baseline', re.sub(r'[^A-Za-z0-9_.-]', '_', unit) + '.json')
+
+
+def load_baseline():
+    """baseline/<unit>.json: written only by `verif baseline` (maintainer command), one file per unit."""
+    res = {}
+    for f in glob.glob(os.path.join(VERIF, 'baseline', '*.json')):
+        d = load_json(f, None)
+        if d:
+            res[d['unit']] = d
+    return res
+
+
 def match_known(kf, prop, unit, failure):
     """A known finding names property, unit and a substring of the failing obligation (and
     optionally of its source line).  Entries with state 'fixed' suppress nothing."""
@@ -79,7 +93,7 @@ def check(prop, tier, only_units=None, seed=0):
     scratch = tempfile.mkdtemp(prefix='verif-%s-' % prop, dir=os.environ.get('VERIF_SCRATCH_ROOT', '/tmp'))
     log_dir = os.path.join(VERIF, 'build', 'logs', prop)
     os.makedirs(log_dir, exist_ok=True)
-    baseline = load_json(os.path.join(VERIF, 'baseline_obligations.json'), {})
+    baseline = load_baseline()
     known = load_json(os.path.join(VERIF, 'known-findings.json'), {'findings': []})
     results = []
     try:
@@ -227,8 +241,8 @@ def cmd_baseline(props):
     """Maintainer command (never run by a check): record which units are green and their named
     obligations on the tree as it is now."""
     all_units = load_units()
-    path = os.path.join(VERIF, 'baseline_obligations.json')
-    baseline = load_json(path, {})
+    os.makedirs(os.path.join(VERIF, 'baseline'), exist_ok=True)
+    baseline = load_baseline()
     known = load_json(os.path.join(VERIF, 'known-findings.json'), {'findings': []})
     units = [u for u in all_units if (not props or set(props) & set(u['props']) or u['name'] in props)]
     scratch = tempfile.mkdtemp(prefix='verif-base-')
@@ -247,14 +261,13 @@ def cmd_baseline(props):
                 print('  %-44s %-9s green=%s %s %s' % (r['name'], r['status'], green, r['reason'] or '',
                                                       [f['description'] for f in r['failed'][:5]]), flush=True)
                 if green:
-                    baseline[r['name']] = {'green': True, 'named': r.get('named', []), 'obligations': r['obligations'],
-                                           'seconds': r['seconds']}
+                    with open(bfile(r['name']), 'w') as fh:
+                        json.dump({'unit': r['name'], 'green': True, 'named': r.get('named', []), 'obligations': r['obligations'],
+                                   'seconds': r['seconds']}, fh, indent=1, sort_keys=True)
                 elif r['name'] in baseline:
                     print('    (kept previous baseline entry)')
     finally:
         shutil.rmtree(scratch, ignore_errors=True)
-    with open(path, 'w') as fh:
-        json.dump(baseline, fh, indent=1, sort_keys=True)
 
 
 def main(argv):
